@@ -545,11 +545,15 @@ class Index(IndexBase):
     def _iter_label(self,
             depth_level: tp.Optional[DepthLevelSpecifier] = None
             ) -> tp.Iterator[tp.Hashable]:
+        if self._recache:
+            self._update_array_cache()
         yield from self._labels
 
     def _iter_label_items(self,
             depth_level: tp.Optional[DepthLevelSpecifier] = None
             ) -> tp.Iterator[tp.Tuple[int, tp.Hashable]]:
+        if self._recache:
+            self._update_array_cache()
         yield from zip(self._positions, self._labels)
 
     @property
